@@ -40,11 +40,11 @@ type Summary struct {
 }
 
 type Viol struct {
-	Run       uint64 `json:"run"`
-	Signature string `json:"signature"`
-	Detail    string `json:"detail"`
-	TapeFile  string `json:"tape_file"`
-	TapeLen   int    `json:"tape_len"`
+	Run       uint64      `json:"run"`
+	Signature string      `json:"signature"`
+	Detail    string      `json:"detail"`
+	TapeFile  string      `json:"tape_file"`
+	TapeLen   int         `json:"tape_len"`
 	Sample    interface{} `json:"sample,omitempty"`
 }
 
